@@ -361,7 +361,7 @@ func genPatch(t *rapid.T, slots []refbundle.Slot) PatchSpec {
 	for _, s := range slots {
 		n := s.Name
 		if strings.Contains(n, ".off[") || strings.Contains(n, ".len[") || (strings.HasPrefix(n, "sl[") && strings.HasSuffix(n, ".len")) ||
-			n == "sections.count" || n == "sl.count" || n == "sl.len" || n == "index.count" || n == "responses.count" || strings.HasSuffix(n, ".hdrlen") || strings.HasSuffix(n, ".bodylen") || strings.HasSuffix(n, ".arr") {
+			n == "toplevel.count" || n == "sections.count" || n == "sl.count" || n == "sl.len" || n == "index.count" || n == "responses.count" || strings.HasSuffix(n, ".hdrlen") || strings.HasSuffix(n, ".bodylen") || strings.HasSuffix(n, ".arr") {
 			pri = append(pri, s)
 		}
 	}
